@@ -135,8 +135,33 @@ def gen_case(ch: Chooser, tier: str = "quick") -> dict:
                 elif kind == "nest":
                     iv = f"jt{depth}"
                     it = _range(ch, {})
+                    if ints and ch.chance(1, 2):
+                        out += shadow_nest(depth, iters, budget)
+                        continue
                     out.append(["for", iv, it, body(depth + 1, iters + [iv], budget)])
             return out
+
+        def shadow_nest(depth: int, iters: list[str], budget: list[int]) -> list:
+            """`int <name of a top-level int> = v; for j in a..<that name> { ... }`: the nested
+            bound is an int declared in this iteration under the name of a top-level int with
+            another value (the declaration shadows it for this iteration only; loops and
+            coordinates after the loop use the outer value again).  A fresh name is refused by the
+            compiler here (an int declared in a loop body is only a compile-time integer when the
+            name is one at top level), so it is not generated."""
+            iv = f"jt{depth}"
+            nm = ch.pick(sorted(ints))
+            pre = ["decl", "int", nm, ["lit", ch.rint(0, 3), 10]]
+            it = ["range", ["lit", ch.rint(-1, 1), 10], ["var", nm], None]
+            nb = body(depth + 1, iters + [iv], budget)
+            if not any(s_[0] == "place" for s_ in nb):
+                # an entity per inner iteration: the number of copies stays observable (anchors
+                # of iteration-local names may legitimately be fewer)
+                row[0] += 1
+                nb.append(["place", c.fresh("lamp"), "small-lamp",
+                           ["bin", "+", ["bin", "+", ["var", iv], ["lit", ch.rint(-4, 4), 10]],
+                            ["bin", "*", ["var", iters[0]], ["lit", 40, 10]]],
+                           ["lit", row[0] * 2 - 12, 10], None])
+            return [pre, ["for", iv, it, nb]]
 
         nonlocal_state = [False]
         n_loops = ch.rint(1, 2)
@@ -147,6 +172,8 @@ def gen_case(ch: Chooser, tier: str = "quick") -> dict:
             iv = f"it{li}"
             it = _range(ch, ints)
             b = body(1, [iv], [0])
+            if ints and ch.chance(1, 3):
+                b += shadow_nest(1, [iv], [0])
             if rebind and li == 0:
                 row[0] += 1
                 b.append(["assign", "cur", ["place", None, "small-lamp",
@@ -157,6 +184,9 @@ def gen_case(ch: Chooser, tier: str = "quick") -> dict:
             c.stmts.append(["for", iv, it, b])
         if rebind:
             c.stmts.append(["enable", "cur", ["bin", ch.pick(lang.CMP_OPS), g.sig_leaf(), ["lit", ch.i32_biased(-9, 9), 10]]])
+        if ints and ch.chance(2, 3):
+            # a top-level int used after the loops (coordinate): a body-local name must not leak
+            c.stmts.append(["place", "after", "small-lamp", ["var", ch.pick(sorted(ints))], ["lit", 14, 10], None])
         stateful = nonlocal_state[0]
         stmts = c.stmts
         try:
